@@ -327,10 +327,13 @@ pub fn window_key(f: &Finding, p: &Program, _o: &Outcome) -> Option<String> {
                         let mut g2 = got.clone();
                         e2.sort_by(|a, b| row_cmp(a, b));
                         g2.sort_by(|a, b| row_cmp(a, b));
-                        // replace reference 0 by NULL in the window column (last) and compare again
+                        // replace reference 0 by NULL in the window column and compare again
+                        let widx = p.main.as_ref().and_then(|m| pipeline_frame(m, p).cols.iter().position(|c| c.name.as_deref() == Some("w")));
                         let fix = |rows: &mut Vec<Vec<V>>| {
                             for r in rows.iter_mut() {
-                                for l in r.iter_mut().skip(2) {
+                                // only the window column (`w`) is rewritten, wherever the final frame puts it
+                                let k = widx.unwrap_or(r.len().saturating_sub(1));
+                                if let Some(l) = r.get_mut(k) {
                                     if matches!(l, V::Int(0)) || matches!(l, V::Real(x) if *x == 0.0) {
                                         *l = V::Null;
                                     }
@@ -365,6 +368,31 @@ pub fn c06_key(f: &Finding, p: &Program, _o: &Outcome) -> Option<String> {
             let clash = p.funcs.iter().any(|f| f.params.iter().any(|n| n == "x"));
             if clash && f.msg.contains("Ambiguous name") {
                 return Some("function-parameter-named-like-column-is-ambiguous".into());
+            }
+            // an explicit select lists two columns of different inputs under one bare name (`select {t.a, r.a}`):
+            // the first of them can no longer be referred to by its qualified name
+            if f.msg.contains("Unknown name `") {
+                let dup_select = main_frames(p).iter().any(|(fr, s)| match s {
+                    Step::Select(items) => {
+                        let names: Vec<(&str, &Option<String>)> = items.iter().filter_map(|it| match (&it.alias, &it.e) {
+                            (None, E::Col(i)) => fr.named(*i).map(|n| (n, &fr.cols[*i].input)),
+                            _ => None,
+                        }).collect();
+                        names.iter().enumerate().any(|(i, (n, inp))| names[..i].iter().any(|(m, jnp)| m == n && jnp != inp))
+                    }
+                    _ => false,
+                });
+                if dup_select {
+                    return Some("qualified-name-unknown-after-select-of-two-same-named-columns".into());
+                }
+            }
+            // a named relation over (relation literal ⋈ open table): a column of the open table cannot be inferred
+            // through the name (`Table _literal_N does not have wildcard`)
+            if f.msg.contains("does not have wildcard") {
+                let lit_join = p.lets.iter().any(|(_, lp)| matches!(lp.src, Source::Lit(..)) && lp.steps.iter().any(|s| matches!(s, Step::Join { right: Source::Table(_), .. })));
+                if lit_join {
+                    return Some("column-of-open-table-not-inferred-through-named-relation-over-literal".into());
+                }
             }
             // an alias defined in a tuple and a same-named column of a named relation used in that tuple
             if f.msg.contains("Ambiguous name") && !p.lets.is_empty() {
